@@ -130,9 +130,14 @@ def make_stream(entries, cuts, with_value=False):
     return NpDataclassStream(iter(make_chunks(entries, cuts, with_value)), dataclass=BedGraph if with_value else Interval)
 
 
-def make_genome(names, size, with_ignored):
+def make_genome(names, size, with_ignored, use_parent=False):
     import bionumpy as bnp
     g = bnp.Genome.from_dict({n: size for n in names})
+    if use_parent:
+        # a genome from which a more permissive one was derived must itself stay strict (the derived object is
+        # discarded; state shared between the two genome contexts would show here)
+        g.with_ignored_added([IGNORED])
+        return g
     if with_ignored:
         g = g.with_ignored_added([IGNORED])
     return g
@@ -160,6 +165,19 @@ def c_mask_data(names, size, entries, cuts, ign, scratch):
     g = make_genome(names, size, ign)
     r = bnp.compute(g.get_intervals(make_stream(entries, cuts)).get_mask().get_data())
     return ('positions', positions_from_table(r, 'value') if hasattr(r, 'value') else positions_from_table(r))
+
+
+def c_mask_data_parent(names, size, entries, cuts, ign, scratch):
+    import bionumpy as bnp
+    g = make_genome(names, size, False, use_parent=True)
+    r = bnp.compute(g.get_intervals(make_stream(entries, cuts)).get_mask().get_data())
+    return ('positions', positions_from_table(r, 'value') if hasattr(r, 'value') else positions_from_table(r))
+
+
+def c_pileup_sum_parent(names, size, entries, cuts, ign, scratch):
+    import bionumpy as bnp
+    g = make_genome(names, size, False, use_parent=True)
+    return ('count', int(bnp.compute(g.get_intervals(make_stream(entries, cuts)).get_pileup().sum())))
 
 
 def c_pileup_sum(names, size, entries, cuts, ign, scratch):
@@ -276,7 +294,9 @@ def c_forbes_second(names, size, entries, cuts, ign, scratch):
 
 
 CONSUMERS = {
-    'mask_data': (c_mask_data, True), 'pileup_sum': (c_pileup_sum, True), 'pileup_data': (c_pileup_data, True),
+    'mask_data': (c_mask_data, True), 'pileup_sum': (c_pileup_sum, True),
+    'mask_data_on_parent_of_a_derived_genome': (c_mask_data_parent, False),
+    'pileup_sum_on_parent_of_a_derived_genome': (c_pileup_sum_parent, False), 'pileup_data': (c_pileup_data, True),
     'track_sum': (c_track_sum, True), 'track_data': (c_track_data, True), 'read_intervals_file': (c_read_intervals_file, True),
     'iter_chromosomes_N': (c_iter_chromosomes_n, True), 'iter_chromosomes_N+1': (c_iter_chromosomes_n1, True),
     'multistream_zip': (c_multistream_zip, False), 'multistream_zip_rev': (c_multistream_zip_rev, False),
